@@ -1109,7 +1109,7 @@ func genMultiPath(r *rand.Rand, stream string, statFault bool) *Case {
 		k := r.Intn(len(c.Paths))
 		if n := findNode(root, c.Paths[k]); n != nil {
 			n.FStat = true
-			n.ErrKind = []string{"perm", "other"}[r.Intn(2)]
+			n.ErrKind = pickKind(r)
 			c.Note = fmt.Sprintf("stat:%s:0 (requested path %d of %d)", c.Paths[k], k+1, len(c.Paths))
 		}
 		if r.Intn(3) == 0 {
